@@ -18,11 +18,13 @@ Definition rows_ok (ops : list oprow) (G : gastab) : bool :=
   && forallb (fun c => N.eqb (o_code (row ops c)) c) (map N.of_nat (List.seq 0%nat 256%nat))
   (* writes = true exactly on the state-touching opcodes (CALL with value is tested separately by the interpreter) *)
   && forallb (fun r => negb (o_valid r) || Bool.eqb (o_writes r) (existsb (N.eqb (o_code r)) writing)) ops
-  && forallb (fun c => o_valid (row ops c)) (writing ++ pushes ++ [0x00; 0x39; 0x50; 0x57; 0x5b; 0xf1; 0xf2; 0xf3; 0xf4; 0xfa; 0xfd])
+  && forallb (fun c => o_valid (row ops c)) (writing ++ pushes ++ [0x00; 0x14; 0x15; 0x39; 0x50; 0x54; 0x57; 0x5b; 0xf1; 0xf2; 0xf3; 0xf4; 0xfa; 0xfd])
   (* constant gas the model charges *)
   && forallb (fun c => N.eqb (o_cgas (row ops c)) (g_push G)) pushes
   && N.eqb (o_cgas (row ops 0x50)) (g_pop G) && N.eqb (o_cgas (row ops 0x57)) (g_jumpi G)
   && N.eqb (o_cgas (row ops 0x5b)) (g_jumpdest G) && N.eqb (o_cgas (row ops 0x39)) (g_codecopy G)
+  && N.eqb (o_cgas (row ops 0x54)) (g_sload G) && N.eqb (o_cgas (row ops 0x14)) (g_eq G) && N.eqb (o_cgas (row ops 0x15)) (g_iszero G)
+  && negb (o_dyn (row ops 0x54)) && negb (o_dyn (row ops 0x14)) && negb (o_dyn (row ops 0x15))
   && N.eqb (o_cgas (row ops 0xf1)) (g_call G) && N.eqb (o_cgas (row ops 0xf2)) (g_callcode G)
   && N.eqb (o_cgas (row ops 0xf4)) (g_delegate G) && N.eqb (o_cgas (row ops 0xfa)) (g_static G)
   && N.eqb (o_cgas (row ops 0xf0)) (g_create G) && N.eqb (o_cgas (row ops 0xf5)) (g_create2 G)
@@ -42,7 +44,7 @@ Definition rows_ok (ops : list oprow) (G : gastab) : bool :=
   && forallb (fun c => o_halts (row ops c) && negb (o_reverts (row ops c))) [0x00; 0xf3; 0xff]
   && o_reverts (row ops 0xfd)
   && forallb (fun c => negb (o_halts (row ops c)) && negb (o_reverts (row ops c)) && negb (o_jumps (row ops c)))
-       (pushes ++ [0x39; 0x50; 0x55; 0x5b; 0xa0; 0xa1; 0xa2; 0xa3; 0xa4; 0xf0; 0xf1; 0xf2; 0xf4; 0xf5; 0xfa])
+       (pushes ++ [0x14; 0x15; 0x39; 0x50; 0x54; 0x55; 0x5b; 0xa0; 0xa1; 0xa2; 0xa3; 0xa4; 0xf0; 0xf1; 0xf2; 0xf4; 0xf5; 0xfa])
   && o_jumps (row ops 0x57) && negb (o_halts (row ops 0x57)) && negb (o_reverts (row ops 0x57))
   && negb (o_valid (row ops 0xfe)).
 
